@@ -2,16 +2,21 @@ import SpecterModel.C41.Model
 import SpecterModel.C41.Explore
 import SpecterModel.C41.ExploreLateP
 import SpecterModel.C41.ExploreLateQ
+import SpecterModel.C41.ExploreDie
 /-!
 # C41 — simultaneous peer connections and the shared cached connection
 
 The protocol model of `Model.lean` instantiated with the decision table GENERATED from `overlay/reuse.go`
 (`Gen.lean`). All theorems quantify over ALL lists of step labels (`run` skips labels that are not enabled), i.e.
 over all interleavings of the (two or four) concurrent negotiations and the reaps, over all consistent
-pre-existing cache states `preStates`, and over the stale-reap scenarios `lateConfigs` (no stale reap, or ONE stale
-`reapPeer` — a second reap of an older, long dead connection — at P or at Q, at any point of the schedule). They are
-proved by an exhaustive exploration evaluated by the kernel (`explore … = true` by `decide`, modules `Explore`,
-`ExploreLateP`, `ExploreLateQ`) and lifted to arbitrary schedules by `explore_sound`.
+pre-existing cache states `preStates`, and over the environment scenarios `envConfigs`: no environment event, or ONE
+of: a stale `reapPeer` — a second reap of an older, long dead connection — at P or at Q, or the death of the
+pre-existing connection `e` (closed from outside the negotiation, then reaped by its close-watchers at both sides),
+at any point of the schedule — in particular between the snapshot (the CACHED report) and the decision of a
+negotiation end. They are proved by an exhaustive exploration evaluated by the kernel (`explore … = true` by
+`decide`, modules `Explore`, `ExploreLateP`, `ExploreLateQ`, `ExploreDie`) and lifted to arbitrary schedules by
+`explore_sound`. Runs with MORE than one environment event (death of `e` and a stale reap, two stale reaps) are not
+covered by the theorems; the harness explores them at run time.
 
 What `reapPeer` does with the entry that is cached when it runs is GENERATED from `overlay/reaper.go`
 (`Gen.C41.reap`): `reap_evicts_only_what_it_closes` is the local fact the stale-reap theorems rest on, and
@@ -54,10 +59,10 @@ theorem fSt_eq (s : St) (k : St → α) : fSt s k = k s := by
 end force
 
 theorem mem_allSteps (e : Step) : e ∈ allSteps := by
-  cases e <;> rename_i i <;> cases i <;> decide
+  cases e <;> first | decide | (rename_i i; cases i <;> decide)
 
 theorem filter_allSteps (s : St) :
-    allSteps.filter (enabled s) = ownSteps.filter (enabled s) ++ lateSteps.filter (enabled s) := by
+    allSteps.filter (enabled s) = ownSteps.filter (enabled s) ++ envSteps.filter (enabled s) := by
   simp [allSteps, List.filter_append]
 
 /-- one level of `explore`: `prop` holds if the state is final, and the exploration continues after every
@@ -66,7 +71,7 @@ theorem explore_succ (T : Table) (prop : St → Bool) (n : Nat) (s : St) (h : ex
     (final s = true → prop s = true) ∧
     ∀ e, enabled s e = true → explore T prop n (step T s e) = true := by
   have hmem : ∀ e, enabled s e = true →
-      e ∈ ownSteps.filter (enabled s) ++ lateSteps.filter (enabled s) := fun e he => by
+      e ∈ ownSteps.filter (enabled s) ++ envSteps.filter (enabled s) := fun e he => by
     rw [← filter_allSteps]; exact List.mem_filter.mpr ⟨mem_allSteps e, he⟩
   simp only [explore] at h
   split at h
@@ -127,53 +132,82 @@ theorem mem_lateConfigs (late : Bool × Bool) (h : late ∈ lateConfigs) :
     late = (false, false) ∨ late = (true, false) ∨ late = (false, true) := by
   simpa [lateConfigs] using h
 
-theorem good_of (dual : Bool) (pre : Entry × Entry) (hp : pre ∈ preStates) (late : Bool × Bool)
-    (hl : late ∈ lateConfigs) (l : List Step)
-    (hf : final (run genTable (init dual pre late) l) = true) : good (run genTable (init dual pre late) l) = true := by
+/-- an environment scenario of the theorems is a stale-reap scenario without the death of `e`, or the death of `e`
+without a stale reap -/
+theorem mem_envConfigs (env : (Bool × Bool) × Bool) (h : env ∈ envConfigs) :
+    (env.1 ∈ lateConfigs ∧ env.2 = false) ∨ env = ((false, false), true) := by
+  simp only [envConfigs, List.mem_cons, List.not_mem_nil, or_false] at h
+  rcases h with h | h | h | h <;> subst h <;> simp [lateConfigs]
+
+theorem goodStrict_single (pre : Entry × Entry) (hp : pre ∈ preStates) (env : (Bool × Bool) × Bool)
+    (he : env ∈ envConfigs) (l : List Step)
+    (hf : final (run genTable (init false pre env.1 env.2) l) = true) :
+    goodStrict (run genTable (init false pre env.1 env.2) l) = true := by
+  obtain ⟨late, die⟩ := env
+  rcases mem_envConfigs _ he with ⟨hl, hd⟩ | h
+  · simp only at hl hd; subst hd
+    exact explore_sound _ _ l 18 _ (explore_single late hl pre hp) hf
+  · simp only [Prod.mk.injEq] at h; obtain ⟨h1, h2⟩ := h; subst h1; subst h2
+    exact explore_sound _ _ l 18 _ (explore_single_die pre hp) hf
+
+theorem good_of (dual : Bool) (pre : Entry × Entry) (hp : pre ∈ preStates) (env : (Bool × Bool) × Bool)
+    (he : env ∈ envConfigs) (l : List Step)
+    (hf : final (run genTable (init dual pre env.1 env.2) l) = true) :
+    good (run genTable (init dual pre env.1 env.2) l) = true := by
   cases dual with
-  | false => exact goodStrict_good _ (explore_sound _ _ l 18 _ (explore_single late hl pre hp) hf)
+  | false => exact goodStrict_good _ (goodStrict_single pre hp env he l hf)
   | true =>
-    rcases mem_lateConfigs late hl with h | h | h <;> subst h
-    · exact goodFor_good pre _ (explore_sound _ _ l 18 _ (explore_dual pre hp) hf)
-    · exact explore_sound _ _ l 18 _ (explore_dual_lateP pre hp) hf
-    · exact explore_sound _ _ l 18 _ (explore_dual_lateQ pre hp) hf
+    obtain ⟨late, die⟩ := env
+    rcases mem_envConfigs _ he with ⟨hl, hd⟩ | h
+    · simp only at hl hd; subst hd
+      rcases mem_lateConfigs late hl with h | h | h <;> subst h
+      · exact goodFor_good pre _ (explore_sound _ _ l 18 _ (explore_dual pre hp) hf)
+      · exact explore_sound _ _ l 18 _ (explore_dual_lateP pre hp) hf
+      · exact explore_sound _ _ l 18 _ (explore_dual_lateQ pre hp) hf
+    · simp only [Prod.mk.injEq] at h; obtain ⟨h1, h2⟩ := h; subst h1; subst h2
+      exact explore_sound _ _ l 18 _ (explore_dual_die pre hp) hf
 
 /-- **no_split_brain.** After any interleaving of one dial or of two simultaneous dials (with the reaps that
-follow closed stored connections, and possibly one stale reap at either side at any point), from any consistent
-pre-existing cache state: if both peers cache a connection for each other, it is the same connection. -/
-theorem no_split_brain (dual : Bool) (pre : Entry × Entry) (hp : pre ∈ preStates) (late : Bool × Bool)
-    (hl : late ∈ lateConfigs) (l : List Step)
-    (hf : final (run genTable (init dual pre late) l) = true) :
-    noSplitBrain (run genTable (init dual pre late) l) = true := by
-  have := good_of dual pre hp late hl l hf
+follow closed stored connections, and possibly one environment event at any point: a stale reap at either side, or
+the death of the pre-existing connection), from any consistent pre-existing cache state: if both peers cache a
+connection for each other, it is the same connection. -/
+theorem no_split_brain (dual : Bool) (pre : Entry × Entry) (hp : pre ∈ preStates) (env : (Bool × Bool) × Bool)
+    (he : env ∈ envConfigs) (l : List Step)
+    (hf : final (run genTable (init dual pre env.1 env.2) l) = true) :
+    noSplitBrain (run genTable (init dual pre env.1 env.2) l) = true := by
+  have := good_of dual pre hp env he l hf
   simp only [good, Bool.and_eq_true] at this
   exact this.1.1
 
 /-- **cache_new_only_if_peer_does.** In every final state a peer caches a new connection (`c` or `d`) only if
 the other peer caches the same connection — also after a stale reap: when `reapPeer` runs for an older dead
 connection and evicts the live new connection from one cache, the other peer's cache loses it as well (the evicted
-connection is closed, the other side's close-watcher reaps it). -/
+connection is closed, the other side's close-watcher reaps it), and also when the pre-existing connection dies and
+is reaped at one side between that side's CACHED report and its decision: the deciding end acts on its snapshot,
+closes the new connection and returns the dead cached one; it never keeps the new connection for itself alone. -/
 theorem cache_new_only_if_peer_does (dual : Bool) (pre : Entry × Entry) (hp : pre ∈ preStates)
-    (late : Bool × Bool) (hl : late ∈ lateConfigs) (l : List Step)
-    (hf : final (run genTable (init dual pre late) l) = true) :
-    newOnlyIfPeer (run genTable (init dual pre late) l) = true := by
-  have := good_of dual pre hp late hl l hf
+    (env : (Bool × Bool) × Bool) (he : env ∈ envConfigs) (l : List Step)
+    (hf : final (run genTable (init dual pre env.1 env.2) l) = true) :
+    newOnlyIfPeer (run genTable (init dual pre env.1 env.2) l) = true := by
+  have := good_of dual pre hp env he l hf
   simp only [good, Bool.and_eq_true] at this
   exact this.1.2
 
 /-- **reused_never_closed_single.** With a single dial, no connection handed back as "reused" is closed by the
-negotiation (with or without a stale reap). -/
-theorem reused_never_closed_single (pre : Entry × Entry) (hp : pre ∈ preStates) (late : Bool × Bool)
-    (hl : late ∈ lateConfigs) (l : List Step)
-    (hf : final (run genTable (init false pre late) l) = true) :
-    reusedNotClosed (run genTable (init false pre late) l) = true := by
-  have := explore_sound _ _ l 18 _ (explore_single late hl pre hp) hf
+negotiation (with or without an environment event; a reused pre-existing connection may of course have died by
+itself). -/
+theorem reused_never_closed_single (pre : Entry × Entry) (hp : pre ∈ preStates) (env : (Bool × Bool) × Bool)
+    (he : env ∈ envConfigs) (l : List Step)
+    (hf : final (run genTable (init false pre env.1 env.2) l) = true) :
+    reusedNotClosed (run genTable (init false pre env.1 env.2) l) = true := by
+  have := goodStrict_single pre hp env he l hf
   simp only [goodStrict, Bool.and_eq_true] at this
   exact this.2
 
-/-- **reused_never_closed_cached.** With two simultaneous dials and no stale reap, if at least one peer already
-holds a cached connection, no reused connection is closed. (With a stale reap this is false: the stale reap can
-empty the caches before the dials start, which is the simultaneous open from empty caches again.) -/
+/-- **reused_never_closed_cached.** With two simultaneous dials and no environment event, if at least one peer
+already holds a cached connection, no reused connection is closed. (With a stale reap or the death of the cached
+connection this is false: the caches can be empty before the dials start, which is the simultaneous open from empty
+caches again.) -/
 theorem reused_never_closed_cached (pre : Entry × Entry) (hp : pre ∈ preStates) (hne : pre ≠ (none, none))
     (l : List Step) (hf : final (run genTable (init true pre) l) = true) :
     reusedNotClosed (run genTable (init true pre) l) = true := by
@@ -190,11 +224,11 @@ theorem reused_never_closed_cached (pre : Entry × Entry) (hp : pre ∈ preState
 /-- **reused_never_closed_unless_cross.** In general a reused connection can be closed only in a
 simultaneous-open cross store (both peers stored a fresh connection, and not the same one). -/
 theorem reused_never_closed_unless_cross (dual : Bool) (pre : Entry × Entry) (hp : pre ∈ preStates)
-    (late : Bool × Bool) (hl : late ∈ lateConfigs) (l : List Step)
-    (hf : final (run genTable (init dual pre late) l) = true) :
-    reusedNotClosed (run genTable (init dual pre late) l) = true ∨
-      crossStore (run genTable (init dual pre late) l) = true := by
-  have := good_of dual pre hp late hl l hf
+    (env : (Bool × Bool) × Bool) (he : env ∈ envConfigs) (l : List Step)
+    (hf : final (run genTable (init dual pre env.1 env.2) l) = true) :
+    reusedNotClosed (run genTable (init dual pre env.1 env.2) l) = true ∨
+      crossStore (run genTable (init dual pre env.1 env.2) l) = true := by
+  have := good_of dual pre hp env he l hf
   simp only [good, Bool.and_eq_true, Bool.or_eq_true] at this
   exact this.2
 
@@ -278,6 +312,8 @@ def staleInTheMiddle : List Step :=
 example : let s := run genTable (init true (some (.e, .outgoing), some (.e, .incoming)) (false, true)) staleInTheMiddle
     final s = true ∧ s.cl .e = .late ∧ good s = true := by decide
 example : (true, false) ∈ lateConfigs ∧ (false, true) ∈ lateConfigs := by decide
+example : ((true, false), false) ∈ envConfigs ∧ ((false, true), false) ∈ envConfigs ∧
+    ((false, false), true) ∈ envConfigs := by decide
 
 /-- the generated table, except that `reapPeer` only deletes the cached entry and closes the connection that
 triggered the reap (it assumes that the cached connection IS that connection) -/
@@ -291,5 +327,47 @@ example : let s := run evictOnlyTable (init false (none, none) (true, false)) [.
     newOnlyIfPeer s = false := by decide
 /-- ordinary schedules (every connection reaped once) do not tell the two tables apart -/
 example : explore evictOnlyTable goodStrict 18 (init false (none, none)) = true := by decide +kernel
+
+/-! ### the cached connection dies between a CACHED report and the decision: non-vacuity and sensitivity
+
+Both peers cache `e` (P outgoing, Q incoming) and negotiate a further connection `c`: both ends report CACHED. Then
+`e` dies, and P's close-watcher reaps it BEFORE P's end decides. The code as it is decides on the snapshot: it closes
+`c` and returns the (dead) cached connection; both caches end empty. -/
+
+def diesInTheWindow : List Step :=
+  [.snap .Pc, .snap .Qc, .kill, .reapE .P, .dec .Pc, .dec .Qc, .reapE .Q]
+
+example : let s := run genTable (init false (some (.e, .outgoing), some (.e, .incoming)) (false, false) true) diesInTheWindow
+    final s = true ∧ s.cached .P = none ∧ s.cached .Q = none ∧ s.cl .e = .late ∧ s.cl .c = .neg ∧
+    s.pc .Pc = .done (.cached, .outgoing) (.reused (some .e)) false ∧ good s = true := by decide
+/-- the window is real: when P's end decides, its snapshot says `e` but its cache is empty -/
+example : let s := run genTable (init false (some (.e, .outgoing), some (.e, .incoming)) (false, false) true) (diesInTheWindow.take 4)
+    s.pc .Pc = .snapped (some (.e, .outgoing)) (.cached, .outgoing) ∧ s.cached .P = none ∧
+    enabled s (.dec .Pc) = true := by decide
+/-- `e` may die before, during or after two simultaneous dials -/
+def diesInTheMiddle : List Step :=
+  [.snap .Pc, .snap .Qd, .kill, .reapE .Q, .snap .Qc, .snap .Pd, .dec .Pc, .dec .Qd, .reapE .P, .dec .Qc, .dec .Pd]
+example : let s := run genTable (init true (some (.e, .outgoing), some (.e, .incoming)) (false, false) true) diesInTheMiddle
+    final s = true ∧ good s = true := by decide
+
+/-- the generated table, except that the branch 'other: cached incoming, us: cached outgoing' looks at the cache
+again and, when the cached entry has gone since the snapshot, keeps the new connection (stores it, returns it as new)
+instead of closing it -/
+def recheckTable : Table :=
+  ⟨Gen.C41.snapshot, fun ps pd cached cdir dir rc rcdir =>
+    match ps, pd, cached, cdir, rc with
+    | .cached, .incoming, true, .outgoing, false =>
+      { reload := true, closeFresh := false, closeCache := false, store := .fresh, del := false, ret := .fresh,
+        reused := false, err := .nil }
+    | _, _, _, _, _ => Gen.C41.decide ps pd cached cdir dir rc rcdir, Gen.C41.reap⟩
+
+/-- … then P keeps `c` for itself: Q, which reported CACHED too, returns its cached `e` and never stores `c`;
+`cache_new_only_if_peer_does` fails in a final state (P caches the live new connection `c`, Q caches nothing) -/
+example : let s := run recheckTable (init false (some (.e, .outgoing), some (.e, .incoming)) (false, false) true) diesInTheWindow
+    final s = true ∧ s.cached .P = some .c ∧ s.cached .Q = none ∧ s.closed .c = false ∧
+    newOnlyIfPeer s = false := by decide
+/-- without an environment event the two tables cannot be told apart: the entry reported as CACHED is still there when
+the end decides -/
+example : ∀ pre ∈ preStates, explore recheckTable goodStrict 18 (init false pre) = true := by decide +kernel
 
 end Specter.C41
